@@ -3,7 +3,10 @@
 import json, os
 HERE = os.path.dirname(os.path.abspath(__file__))
 BASELINE = "cd /repo && /venv/bin/python -m pytest -ra -q -p no:cacheprovider --timeout=900 --continue-on-collection-errors"
-CLAIMED = json.load(open(os.path.join(HERE, "claims.json")))
+CLAIMED = {}
+for f in sorted(os.listdir(os.path.join(HERE, "claims.d"))):
+    if f.endswith(".json"):
+        CLAIMED[f[:-5]] = json.load(open(os.path.join(HERE, "claims.d", f)))
 props = [json.loads(l) for l in open(os.path.join(HERE, "properties.jsonl"))]
 checks, na = [], []
 for p in props:
